@@ -31,4 +31,8 @@ func init() {
 	reg(sim.RelCfg("x-rel-batch-any-k4", 0, 4, 0, 8, fBld|fMove|fReg|fBRem|fBSet, sim.OBasic))
 	reg(sim.RelCfg("x-rel-broad-k3", 0, 3, 0, 1, fBld|fMove|fRel|fRet|fRelX|fBRem|fBExch|fBSet|fReg|fReset|fIll|fQ|fBNew, sim.OBasic))
 	reg(sim.EntCfg("x-ent-k5", 5, 1, fBNew|fBRem|fReset, sim.OBasic))
+	reg(sim.BoundaryTablesCfg("x-b-tables", 2, fMove|fRet|fBRem|fBSet|fReg, sim.OBasic))
+	reg(sim.BoundaryNodesCfg("x-b-nodes", 1, fMove|fRel|fReg|fBExch, sim.OBasic))
+	reg(sim.BoundaryEntitiesCfg("x-b-ent64", 62, 4, 128, fRet|fBNew|fBRem, sim.OBasic))
+	reg(sim.BoundaryEntitiesCfg("x-b-ent128", 124, 4, 128, fRet|fBNew|fBRem, sim.OBasic))
 }
